@@ -17,7 +17,7 @@ func init() {
 		"non-trivial = a document that differs from the base document; distinct = (emitted source hash, document)"
 }
 
-var c05Devs = []string{"NULLABLE_DEF_UNENFORCED", "FLOAT_MULTIPLEOF_TOLERANCE", "INT_BOUND_TRUNCATED"}
+var c05Devs = []string{"NULLABLE_DEF_UNENFORCED", "FLOAT_MULTIPLEOF_TOLERANCE", "INT_BOUND_TRUNCATED", "ENUM_SIBLING_CONSTRAINTS_IGNORED", "INT_MULTIPLEOF_TRUNCATED"}
 
 func c05(ctx *Ctx) {
 	c05PartA(ctx)
@@ -232,6 +232,24 @@ func c05Cases(level int) []SCase {
 				out = append(out, SCase{ID: "C05/root/" + name, Schema: space.Clone(l), Cfg: baseCfg(), Axes: map[string]string{"pos": "root", "leaf": name}})
 			}
 		}
+	}
+	// bounds / divisor stated next to an enum: a listed value outside them is not valid; a divisor of an integer that is not itself integral
+	for _, eb := range []struct {
+		name string
+		l    J
+	}{
+		{"integer-enum,minimum=2", J{"type": "integer", "enum": A{1, 2, 3}, "minimum": 2}},
+		{"integer-enum,exclusiveMaximum=3", J{"type": "integer", "enum": A{1, 2, 3}, "exclusiveMaximum": 3}},
+		{"integer-enum,multipleOf=2", J{"type": "integer", "enum": A{2, 4, 5}, "multipleOf": 2}},
+		{"number-enum,maximum=2", J{"type": "number", "enum": A{0.5, 1.5, 2.5}, "maximum": 2}},
+		{"integer-fractional-divisor,multipleOf=2.5", J{"type": "integer", "multipleOf": 2.5}},
+		{"integer-fractional-divisor,multipleOf=1.5,minimum=0,maximum=12", J{"type": "integer", "multipleOf": 1.5, "minimum": 0, "maximum": 12}},
+	} {
+		l := eb.l
+		out = append(out, SCase{ID: "C05/props/" + eb.name, Cfg: baseCfg(), Axes: map[string]string{"pos": "props", "leaf": eb.name},
+			Schema: J{"type": "object", "properties": J{"r": l, "o": l}, "required": A{"r"}}})
+		out = append(out, SCase{ID: "C05/def/" + eb.name, Cfg: baseCfg(), Axes: map[string]string{"pos": "def", "leaf": eb.name},
+			Schema: J{"type": "object", "properties": J{"d": J{"$ref": "#/$defs/D"}, "do": J{"$ref": "#/$defs/D"}}, "required": A{"d"}, "$defs": J{"D": l}}})
 	}
 	// fractional bounds on integers (a handful: the current implementation truncates them, listed finding INT_BOUND_TRUNCATED)
 	for _, fb := range []J{{"minimum": 1.5}, {"maximum": 7.5}, {"minimum": 1.5, "maximum": 7.5}, {"minimum": -4.5, "maximum": -1.5}, {"exclusiveMinimum": 1.5}, {"exclusiveMaximum": 7.5},
